@@ -63,6 +63,7 @@ def run(chk: Check) -> None:
     run_single_typevartuple(chk, ix)
     run_unpacked_item_asserts(chk, ix)
     run_capture_nodes_are_any_symbol(chk, ix)
+    run_count_check_fails_closed(chk, ix)
 
     r1 = chk.rule("R20.1", "every loop that re-queues deferred work has a per-iteration counter compared with a constant bound that exits the loop; type-checker deferral is limited by pass_num < last_pass", floor=7)
     n_loops = 0
@@ -928,3 +929,33 @@ def run_capture_nodes_are_any_symbol(chk: Check, ix) -> None:
                         r19.violation(key, f.loc(a), f"`{norm(a.test)[:70]}`: for `class K: ...` / `match 2: case [K] | K: pass` the node is the TypeInfo of K and the assertion fails (INTERNAL ERROR, exit 2)")
     if n < 1:
         raise AnalysisError("checkpattern: no assertion on the node of a captured name found (get_var expected)")
+
+
+def run_count_check_fails_closed(chk: Check, ix) -> None:
+    """R20.20: the target-count check of a multiple assignment does not answer 'fine' after it has reported an error."""
+    from ..cfg import CFG
+    r20 = chk.rule("R20.20", "TypeChecker.check_rvalue_count_in_assignment tells check_multi_assignment_from_tuple whether the right-hand items can be dealt out to the targets; on False the targets get Any. After an error report (`self.fail(...)`, `self.msg.<report>(...)`) no CFG path reaches `return True`: otherwise the items are dealt out although the shapes do not fit, a target can receive a bare `*Ts` item, and later uses of that variable hit assertions (`find_unpack_in_list`)", floor=4)
+    cls = ix.cls("mypy.checker.TypeChecker")
+    f = cls.methods.get("check_rvalue_count_in_assignment")
+    if f is None:
+        raise AnalysisError("TypeChecker.check_rvalue_count_in_assignment not found")
+    g = CFG(f.node)
+    trues = [nd for nd in g.nodes if nd.kind == "stmt" and isinstance(nd.stmt, ast.Return) and isinstance(nd.stmt.value, ast.Constant) and nd.stmt.value.value is True]
+    if not trues:
+        raise AnalysisError("check_rvalue_count_in_assignment: no `return True` found")
+    n = 0
+    for nd in g.nodes:
+        if nd.kind != "stmt" or nd.stmt is None or not isinstance(nd.stmt, ast.Expr):
+            continue
+        reports = [c for c in nd.calls() if norm(c.func) == "self.fail" or norm(c.func).startswith("self.msg.")]
+        if not reports:
+            continue
+        n += 1
+        key = f"check_rvalue_count_in_assignment: `{norm(reports[0].func)}(...)` at its {n}. report is followed by `return False`"
+        reach = g.reachable([nd], labels_excluded=("exc",))
+        if any(t in reach for t in trues):
+            r20.violation(key, f.loc(nd.stmt), f"after `{norm(nd.stmt)[:70]}` a path reaches `return True`: the caller deals the tuple items out to the targets although the error says they do not fit (`x, y, *xs, z = rv` with `rv: tuple[int, *Ts, int, int]` gives `y` the type `*Ts`; `many(*(y, y))` then ends in INTERNAL ERROR)")
+        else:
+            r20.ok(key, f.loc(nd.stmt))
+    if n < 4:
+        raise AnalysisError(f"check_rvalue_count_in_assignment: only {n} error reports found")
